@@ -483,6 +483,37 @@ func runC05(r *Run) {
 			}
 		}
 	}
+	// absent leaves reached through quantifier-bound aliases (chains of aliases with different names)
+	{
+		d := map[string]interface{}{"groups": []interface{}{
+			map[string]interface{}{"name": "g1", "members": []interface{}{map[string]interface{}{"name": "bob", "email": "b@x"}, map[string]interface{}{"name": "al"}}},
+			map[string]interface{}{"name": "g2", "members": []interface{}{map[string]interface{}{"name": "eve", "email": "none"}}}},
+			"byname": map[string]interface{}{"a": map[string]interface{}{"tags": map[string]interface{}{"t": 1}}}}
+		cases := []struct{ e, want string }{
+			{"any groups as g { any g.members as m { m.phone == 1 } }", "F"}, {"all groups as g { all g.members as m { m.phone != 1 } }", "T"},
+			{"any groups as g { any g.members as m { m.phone is empty } }", "T"}, {"all groups as g { any g.members as m { m.name == al or m.name == eve } }", "T"},
+			{"any groups as g { all g.members as m { m.email is not empty } }", "T"}, {"all groups as g { all g.members as m { m.email != none } }", "F"},
+			{"any groups as g { any g.members as i, m { m.zz.k == 1 } }", "E"}, {"any groups as g { g.zz == 1 }", "F"}, {"any groups as g { any g.zz as m { m == 1 } }", "F"},
+			{"all byname as _, v { all v.tags as k, w { w == 1 and v.tags.zz != 1 } }", "T"}, {"any byname as _, v { v.tags.zz == 1 }", "F"},
+			{"any groups as g { any g.members as m { any m.name as ch { ch == b } } }", "E"},
+		}
+		for _, t := range cases {
+			for _, u := range unknowns[:4] {
+				c := evalCase{expr: t.e, d: d, tag: "bexpr", unkSet: u.set, unk: u.v}
+				if !c.parse() {
+					r.Violate("fixed-case-unparseable", t.e, c.desc(), "")
+					continue
+				}
+				o := c.obs()
+				r.Evaluations++
+				r.Seen("alias-chain|" + t.e + "|" + u.name)
+				if !u.set && o != t.want {
+					r.Violate("absent:alias-chain", "alias|"+t.e, c.desc(), "expected "+t.want+" got "+o)
+				}
+				r.Model(c.cmd(), o, c.desc())
+			}
+		}
+	}
 	// expressions whose selectors all resolve are unaffected by an unknown value: documents {"x": v} for every kind
 	// sample, forms that mention only the selector x (resolving by construction)
 	forms := []string{"x == %s", "x != %s", "%s in x", "%s not in x", "x is empty", "x is not empty", "x matches %s", "not x == %s", "x == %s or x is empty", "x == %s and x != %s"}
@@ -633,6 +664,36 @@ func runC06(r *Run) {
 					}
 				}
 			}
+		}
+	}
+	// the value binding must see what the path S.i sees, also under a value-transformation hook that rewrites scalars
+	for _, t := range []struct {
+		e, un string
+		d     interface{}
+	}{
+		{"any L as t { t == BLUE }", "L.0 == BLUE or L.1 == BLUE", S1{L: []string{"red", "blue"}}},
+		{"all L as t { t matches `^[A-Z]+$` }", "L.0 matches `^[A-Z]+$` and L.1 matches `^[A-Z]+$`", S1{L: []string{"red", "blue"}}},
+		{"any L as i, t { t == blue }", "L.0 == blue or L.1 == blue", S1{L: []string{"red", "blue"}}},
+		{"any MSS.k as _, t { t == AB }", "MSS.k.0 == AB", S3{MSS: map[string][]string{"k": {"ab"}}}},
+		{"any W.V as t { t == 1 }", "W.V.0 == 1", S6{W: Wrap{[]int{1}}}},
+		{"any WL as w { w == 1 }", "WL.0 == 1 or WL.1 == 1", S6{WL: []Wrap{{2}, {1}}}},
+	} {
+		for _, hk := range []int{0, 1, 2, 5} {
+			c := evalCase{expr: t.e, d: t.d, tag: "bexpr", hook: hk}
+			cu := evalCase{expr: t.un, d: t.d, tag: "bexpr", hook: hk}
+			if !c.parse() || !cu.parse() {
+				continue
+			}
+			o, ou := c.obs(), cu.obs()
+			r.Evaluations += 2
+			r.Seen("hook-unroll|" + t.e + "|" + fmt.Sprint(hk))
+			if o != ou {
+				m := c.desc()
+				m["unrolled"] = t.un
+				r.Violate("unroll", "hook|"+t.e+"|"+fmt.Sprint(hk), m, "quantifier "+o+", unrolled "+ou)
+			}
+			r.Model(c.cmd(), o, c.desc())
+			r.Model(cu.cmd(), ou, cu.desc())
 		}
 	}
 	// index / key variables are the position / key itself
